@@ -252,6 +252,83 @@ theorem built_filtered_accepted (req : List Bytes) : FilteredAccepted (rfcCtx Hs
 
 end
 
+/-! ### The sequencer's gRPC filter -/
+
+theorem mem_insertId (x y : Bytes) (l : List Bytes) : y ∈ insertId x l ↔ y = x ∨ y ∈ l := by
+  induction l with
+  | nil => simp [insertId]
+  | cons h rest ih =>
+    simp only [insertId]
+    cases hc : bytesLt x h with
+    | true => simp
+    | false =>
+      simp only [Bool.false_eq_true, if_false, List.mem_cons, ih]
+      constructor
+      · rintro (a | a | a)
+        · exact Or.inr (Or.inl a)
+        · exact Or.inl a
+        · exact Or.inr (Or.inr a)
+      · rintro (a | a | a)
+        · exact Or.inr (Or.inl a)
+        · exact Or.inl a
+        · exact Or.inr (Or.inr a)
+
+theorem mem_sortIds (y : Bytes) (l : List Bytes) : y ∈ sortIds l ↔ y ∈ l := by
+  induction l with
+  | nil => simp [sortIds]
+  | cons h rest ih => simp [sortIds, mem_insertId, ih]
+
+/-- Sorting an already strictly ascending list of ids changes nothing. -/
+theorem sortIds_of_sorted (l : List Bytes) (h : l.Pairwise (fun x y => bytesLt x y = true)) : sortIds l = l := by
+  induction l with
+  | nil => rfl
+  | cons x rest ih =>
+    simp only [List.pairwise_cons] at h
+    simp only [sortIds, ih h.2]
+    cases rest with
+    | nil => rfl
+    | cons y ys => simp [insertId, h.1 y (by simp)]
+
+/-- What `get_filtered_sequencer_block` serves for a built block: the block's id list, and
+    exactly the stored entries of the requested rollups that are present. -/
+theorem grpcFiltered_exact (Hs : Hashes) (inp : BuildInput) (b : Block) (hb : tryBuild Hs inp = .ok b)
+    (req : List Bytes) :
+    (grpcFiltered b req).allIds = b.ids ∧
+    (∀ r ∈ (grpcFiltered b req).rollups, ∃ x ∈ b.rollups, r = x.toRaw ∧ x.id ∈ req) ∧
+    (∀ x ∈ b.rollups, x.id ∈ req → x.toRaw ∈ (grpcFiltered b req).rollups) := by
+  have hsorted := (built_data_exact Hs inp b hb).2.1
+  have hnd := built_ids_nodup Hs inp b hb
+  refine ⟨sortIds_of_sorted _ hsorted, ?_, ?_⟩
+  · intro r hr
+    simp only [grpcFiltered, List.mem_filterMap, List.mem_filter] at hr
+    obtain ⟨id, ⟨hreq, _⟩, hfind⟩ := hr
+    cases hf : b.rollups.find? (fun r => r.id = id) with
+    | none => rw [hf] at hfind; cases hfind
+    | some x =>
+      rw [hf] at hfind
+      simp only [Option.map_some, Option.some.injEq] at hfind
+      have hx := List.mem_of_find?_eq_some hf
+      have hid := List.find?_some hf
+      simp only [decide_eq_true_eq] at hid
+      exact ⟨x, hx, hfind.symm, by rw [hid]; exact hreq⟩
+  · intro x hx hreq
+    simp only [grpcFiltered, List.mem_filterMap, List.mem_filter]
+    refine ⟨x.id, ⟨hreq, ?_⟩, ?_⟩
+    · simp only [List.contains_eq_mem, decide_eq_true_eq]
+      rw [mem_sortIds]
+      exact List.mem_map_of_mem (f := fun r : Rt => r.id) hx
+    · have hfind : b.rollups.find? (fun r => r.id = x.id) = some x := by
+        cases hf : b.rollups.find? (fun r => r.id = x.id) with
+        | none =>
+          have := List.find?_eq_none.mp hf x hx
+          simp at this
+        | some y =>
+          have hy := List.mem_of_find?_eq_some hf
+          have hid := List.find?_some hf
+          simp only [decide_eq_true_eq] at hid
+          rw [inj_of_nodup_map (fun r : Rt => r.id) b.rollups hnd y hy x hx hid]
+      rw [hfind]; rfl
+
 /-! ### The conductor's reconstruction -/
 
 theorem mem_removeMeta (hs : List Meta) (h : Bytes) (m : Meta) (hm : m ∈ removeMeta hs h) : m ∈ hs :=
